@@ -19,7 +19,7 @@ use std::sync::Arc;
 
 use hc::{coq, Case, Rng, Sink};
 use mithril_common::entities::{
-    BlockNumber, ChainPoint, Epoch, ProtocolParameters, SignedEntityConfig, SignedEntityType,
+    BlockNumber, BlockNumberOffset, CardanoTransactionsSigningConfig, ChainPoint, Epoch, ProtocolParameters, SignedEntityConfig, SignedEntityType,
     SignedEntityTypeDiscriminants as D, SignerWithStake, SingleSignature, SlotNumber, TimePoint,
 };
 use mithril_common::messages::{RegisterSignatureMessageHttp, SignedEntityTypeMessage, SignerMessagePart};
@@ -299,6 +299,8 @@ enum Ev {
 
 struct Scenario {
     kind: String,
+    /// Some(step): CardanoTransactions is enabled too (security parameter 0)
+    tx_step: Option<u64>,
     e0: u64,
     lucky: Vec<bool>, // by config epoch = recording epoch of the key created with it
     events: Vec<Ev>,
@@ -312,7 +314,7 @@ fn gen_scenario(rng: &mut Rng, n_signers: usize, thorough: bool) -> Scenario {
         0 => ("calm", 40, 60),
         1 => ("publish-faults", 4, 25),
         2 => ("registration-faults", 4, 25),
-        3 => ("restarts", 8, 4),
+        3 => ("restarts", 8, 7),
         _ => ("mixed", 5, 9),
     };
     let _ = thorough;
@@ -369,7 +371,9 @@ fn gen_scenario(rng: &mut Rng, n_signers: usize, thorough: bool) -> Scenario {
         events.push(Ev::Tick(Tick { epoch, imm, block, lag, down, reg, pubm, others }));
         ticks += 1;
     }
-    Scenario { kind: kind.into(), e0, lucky, events }
+    let tx_step = if rng.chance(1, 3) { Some(*rng.pick(&[15u64, 30, 40])) } else { None };
+    let kind = if tx_step.is_some() { format!("{kind}+tx") } else { kind.to_string() };
+    Scenario { kind, tx_step, e0, lucky, events }
 }
 
 fn params(lucky: bool) -> ProtocolParameters {
@@ -377,8 +381,18 @@ fn params(lucky: bool) -> ProtocolParameters {
     ProtocolParameters { k: 3, m: 10, phi_f: if lucky { 1.0 } else { 1e-15 } }
 }
 
-fn allowed() -> BTreeSet<D> {
-    BTreeSet::from([D::MithrilStakeDistribution, D::CardanoStakeDistribution, D::CardanoDatabase])
+fn allowed(tx: bool) -> BTreeSet<D> {
+    let mut s = BTreeSet::from([D::MithrilStakeDistribution, D::CardanoStakeDistribution, D::CardanoDatabase]);
+    if tx {
+        s.insert(D::CardanoTransactions);
+    }
+    s
+}
+fn tx_config(sc: &Scenario) -> Option<CardanoTransactionsSigningConfig> {
+    sc.tx_step.map(|step| CardanoTransactionsSigningConfig {
+        security_parameter: BlockNumberOffset(0),
+        step: BlockNumber(step),
+    })
 }
 
 fn entity_obs(e: &SignedEntityType) -> String {
@@ -445,6 +459,8 @@ struct RunOut {
     marks: Vec<(usize, SignedEntityType)>,
     critical: Option<String>,
     n_epochs: usize,
+    /// (event index, state after the event)
+    states: Vec<(usize, SignerState)>,
 }
 
 struct Ctx {
@@ -525,9 +541,9 @@ async fn run_impl(ctx: &Ctx, sc: &Scenario, work: PathBuf) -> RunOut {
                 Epoch(e as u64),
                 MithrilNetworkConfigurationForEpoch {
                     protocol_parameters: params(*l),
-                    enabled_signed_entity_types: allowed(),
+                    enabled_signed_entity_types: allowed(sc.tx_step.is_some()),
                     signed_entity_types_config: SignedEntityTypeConfiguration {
-                        cardano_transactions: None,
+                        cardano_transactions: tx_config(sc),
                         cardano_blocks_transactions: None,
                     },
                 },
@@ -541,15 +557,15 @@ async fn run_impl(ctx: &Ctx, sc: &Scenario, work: PathBuf) -> RunOut {
     }
     set_shared_store(store.clone());
     let config = SignedEntityConfig {
-        allowed_discriminants: allowed(),
-        cardano_transactions_signing_config: None,
+        allowed_discriminants: allowed(sc.tx_step.is_some()),
+        cardano_transactions_signing_config: tx_config(sc),
         cardano_blocks_transactions_signing_config: None,
     };
     let my_party = ctx.signers[0].party_id.clone();
 
     let (mut epoch, mut imm, mut block) = (sc.e0, 1u64, 100u64);
     let mut tester = init_tester(&work, ctx, &time_point(epoch, imm, block)).await;
-    let mut out = RunOut { per_event: vec![], sigs: vec![], regs: vec![], marks: vec![], critical: None, n_epochs: 1 };
+    let mut out = RunOut { per_event: vec![], sigs: vec![], regs: vec![], marks: vec![], critical: None, n_epochs: 1, states: vec![] };
     let mut sent: BTreeMap<u64, SignerMessagePart> = BTreeMap::new();
     let (mut sig_seen, mut reg_seen) = (0usize, 0usize);
 
@@ -605,6 +621,7 @@ async fn run_impl(ctx: &Ctx, sc: &Scenario, work: PathBuf) -> RunOut {
                     }
                 }
                 let post_state = tester.verif_state().await;
+                out.states.push((i, post_state.clone()));
                 // what the aggregator received during this tick
                 let s = store.read().await;
                 let mut sig_obs = vec![];
@@ -740,6 +757,18 @@ fn judge(sc: &Scenario, out: &RunOut) -> Result<(), String> {
             return Err(format!("{e:?} is marked as signed after event {i} but the aggregator never acknowledged a signature for it"));
         }
     }
+    // (g) ReadyToSign(e) only with a registration the aggregator recorded for e-1, made during e-2
+    for (i, st) in &out.states {
+        if let SignerState::ReadyToSign { epoch } = st {
+            let ok = out.regs.iter().any(|r| {
+                r.tick < *i && r.recorded && r.rec_epoch + SPEC_RETRIEVAL_BACK == **epoch && r.chain_epoch + SPEC_SIGNING == **epoch
+            });
+            if !ok {
+                return Err(format!("ReadyToSign({}) after event {i} although no registration made during epoch {} was recorded by the aggregator",
+                    **epoch, **epoch as i64 - SPEC_SIGNING as i64));
+            }
+        }
+    }
     // registrations are recorded one epoch ahead of the epoch they are made in
     for r in &out.regs {
         if r.rec_epoch != r.chain_epoch + SPEC_RECORDING {
@@ -821,14 +850,16 @@ fn main() {
             id,
             kind: sc.kind.clone(),
             desc: serde_json::json!({
-                "initial_epoch": sc.e0,
+                "initial_epoch": sc.e0, "cardano_transactions_step": sc.tx_step,
                 "lucky_by_key_epoch": sc.lucky.iter().take(16).collect::<Vec<_>>(),
                 "events": sc.events.iter().map(desc_event).collect::<Vec<_>>(),
                 "signatures_received": out.sigs.iter().map(|s| serde_json::json!({
                     "event": s.tick, "entity": format!("{:?}", s.entity), "key_recorded_under": s.key_epochs, "mode": format!("{:?}", s.mode)})).collect::<Vec<_>>(),
             }),
             model: Some(format!(
-                "C20.Model.run_obs [MSD; CSD; CDb] {} {}",
+                "C20.Model.run_obs {} {} {} {}",
+                if sc.tx_step.is_some() { "[MSD; CSD; CDb; CTx]" } else { "[MSD; CSD; CDb]" },
+                coq::opt(sc.tx_step.map(|st| coq::pair(&coq::n(0), &coq::n(st)))),
                 coq::list(&sc.lucky.iter().map(|b| coq::b(*b)).collect::<Vec<_>>()),
                 coq::list(&sc.events.iter().map(|e| format!("({})", coq_event(e))).collect::<Vec<_>>())
             )),
